@@ -7,7 +7,7 @@ C10 emission bridge, part 4 — concrete reachable states used by Props/C10Emiss
   round-2 round-change it holds. Reachable only because operator 1 ran two timeouts ahead of operator 2, i.e. outside the
   timing assumption.
 -/
-import Ssv.Proofs.EmissionBridgeSys
+import Ssv.Proofs.EmissionBridgeSkewSys
 import Ssv.Proofs.QbftNodeExample
 set_option linter.unusedSimpArgs false
 set_option linter.unusedVariables false
@@ -19,6 +19,55 @@ instance (m : Msg) : Decidable (Gated m) := by unfold Gated; infer_instance
 
 instance {P : Params} (a : Action P) : Decidable (GatedAction a) := by
   cases a <;> unfold GatedAction <;> infer_instance
+
+/-- `∀ s, o = some s → p s` is decidable -/
+def decForallSome {α : Type} (o : Option α) (p : α → Prop) [∀ a, Decidable (p a)] : Decidable (∀ s, o = some s → p s) :=
+  match o with
+  | none => isTrue (by intro s h; cases h)
+  | some a => if h : p a then isTrue (by intro s hs; cases hs; exact h) else isFalse (fun hh => h (hh a rfl))
+
+instance {P : Params} (σ : Sys P) (a : Action P) : Decidable (InRoundAction σ a) := by
+  cases a with
+  | start i v => exact isTrue trivial
+  | timeout i r => exact isTrue trivial
+  | deliver i m =>
+    unfold InRoundAction
+    have : Decidable (∀ s, instAt P.height (σ.ctrl i) = some s →
+        (m.type = tRoundChange → m.round ≤ s.round + 1) ∧ (isDecidedMsg (P.cfg i) m = true → s.round ≤ m.round)) :=
+      decForallSome _ _
+    infer_instance
+
+/-- `runItems` that checks the gate AND the in-round condition on every delivery -/
+def runItemsC {P : Params} (σ : Sys P) : List (Item P) → Option (Sys P)
+  | [] => some σ
+  | .act a :: rest => if enabled σ a ∧ GatedAction a ∧ InRoundAction σ a then runItemsC (step σ a) rest else none
+  | .fwd i k :: rest =>
+    match σ.log[k]? with
+    | some m =>
+      if enabled σ (.deliver i m) ∧ Gated m ∧ InRoundAction σ (.deliver i m) then runItemsC (step σ (.deliver i m)) rest
+      else none
+    | none => none
+
+theorem reachableC_runItemsC {P : Params} {σ σ' : Sys P} (l : List (Item P)) (h : ReachableC σ)
+    (hr : runItemsC σ l = some σ') : ReachableC σ' := by
+  induction l generalizing σ with
+  | nil => simp only [runItemsC, Option.some.injEq] at hr; exact hr ▸ h
+  | cons it rest ih =>
+    cases it with
+    | act a =>
+      simp only [runItemsC] at hr
+      split at hr
+      · rename_i hc; exact ih (ReachableC.step a h hc.1 hc.2.1 hc.2.2) hr
+      · cases hr
+    | fwd i k =>
+      simp only [runItemsC] at hr
+      cases hm : σ.log[k]? with
+      | none => simp [hm] at hr
+      | some m =>
+        simp only [hm] at hr
+        split at hr
+        · rename_i hc; exact ih (ReachableC.step (.deliver i m) h hc.1 hc.2.1 hc.2.2) hr
+        · cases hr
 
 /-- `runItems` that additionally checks the gate on every delivery -/
 def runItemsG {P : Params} (σ : Sys P) : List (Item P) → Option (Sys P)
@@ -55,12 +104,15 @@ theorem reachableG_runItemsG {P : Params} {σ σ' : Sys P} (l : List (Item P)) (
 /-- after the three starts, the three timeouts and two of the three round-changes delivered to operator 1 (index 0) -/
 def exSchedA : List (Item exP) := exSched.take 8
 
-theorem exA_isSome : (runItemsG (Sys.init exP) exSchedA).isSome = true := by decide +kernel
+theorem exA_isSome : (runItemsC (Sys.init exP) exSchedA).isSome = true := by decide +kernel
 
-def exSysA : Sys exP := (runItemsG (Sys.init exP) exSchedA).get exA_isSome
+def exSysA : Sys exP := (runItemsC (Sys.init exP) exSchedA).get exA_isSome
 
-theorem exA_reachableG : ReachableG exSysA :=
-  reachableG_runItemsG exSchedA ReachableG.init (by simp [exSysA])
+/-- reached through gated, in-round deliveries -/
+theorem exA_reachableC : ReachableC exSysA :=
+  reachableC_runItemsC exSchedA ReachableC.init (by simp [exSysA])
+
+theorem exA_reachableG : ReachableG exSysA := exA_reachableC.gated
 
 /-- the third round-change of round 2 (operator 3's), which completes the quorum at the round-2 leader -/
 def exRc3 : Msg := ownMsg (exP.cfg 2) tRoundChange 3 2 zeroRoot noRound [] [] 0
@@ -68,12 +120,14 @@ def exRc3 : Msg := ownMsg (exP.cfg 2) tRoundChange 3 2 zeroRoot noRound [] [] 0
 /-- everything but the last delivery of `exSched`: operator 2 (index 1) holds two of the three commits -/
 def exSchedB : List (Item exP) := exSched.take 26
 
-theorem exB_isSome : (runItemsG (Sys.init exP) exSchedB).isSome = true := by decide +kernel
+theorem exB_isSome : (runItemsC (Sys.init exP) exSchedB).isSome = true := by decide +kernel
 
-def exSysB : Sys exP := (runItemsG (Sys.init exP) exSchedB).get exB_isSome
+def exSysB : Sys exP := (runItemsC (Sys.init exP) exSchedB).get exB_isSome
 
-theorem exB_reachableG : ReachableG exSysB :=
-  reachableG_runItemsG exSchedB ReachableG.init (by simp [exSysB])
+theorem exB_reachableC : ReachableC exSysB :=
+  reachableC_runItemsC exSchedB ReachableC.init (by simp [exSysB])
+
+theorem exB_reachableG : ReachableG exSysB := exB_reachableC.gated
 
 /-- the commit of operator 3 (index 2) for (round 2, root 5) -/
 def exCommit3 : Msg := ownMsg (exP.cfg 2) tCommit 3 2 5 noRound [] [] 0
